@@ -591,9 +591,12 @@ int32 dtlsHsHashFragMsg(ssl_t *ssl)
     nextOffset = i = totalLen = 0;
     while (i < MAX_FRAGMENTS)
     {
-        if (ssl->fragHeaders[i].offset == nextOffset)
+        if (ssl->fragHeaders[i].offset == nextOffset &&
+            ssl->fragHeaders[i].fragLen > 0)
         {
 /*
+            (Only a fragment that carries data moves nextOffset forward;
+            restarting the search after any other would never end.)
             We must send this message through the handshake hash mechanism
             as if there was no fragmentation at all.  A nextOffset value
             of 0 will always mean this is the first fragment.  This header
